@@ -107,7 +107,9 @@ def check_gate(ctx, inp, setting, a, files):
         why = sg.allowed(f, enabled, 'inconclusive' in setting)
         ctx.count('findings_by_severity', f.severity + ('/inconclusive' if f.inconclusive else ''))
         if why:
-            ctx.violation('gate:%s:%s%s:%s' % (f.id, f.severity, '(inconclusive)' if f.inconclusive else '', sname(setting)),
+            # key = the rule that is broken: the severity rule names the severity, the certainty rule 'inconclusive'
+            ctx.violation('gate:%s:%s:%s' % (f.id, 'inconclusive' if why.startswith('inconclusive') else f.severity,
+                                             sname(setting)),
                           '%s: finding %s reported under setting %s (%s)' % (inp['name'], findings.short(f), sname(setting), why),
                           files=files, cmd='cd input && ' + a.res.cmdline())
 
